@@ -161,6 +161,60 @@ func ScAttachAfterClose(hevc bool) Outcome {
 	return Outcome{Name: name}
 }
 
+// ScAttachAfterEnd: the stream ends for one of the reasons the property names — replaced by a new
+// publisher on the same path (media.Regist), unregistered, or closed — and only then a consumer
+// attaches through the handle it looked up before (the lookup → attach window of every service).
+// Property (C03): it is closed promptly, exactly once, and does not stay in the table.
+func ScAttachAfterEnd(reason string, flvTable bool, hevc bool) Outcome {
+	name := "attach-after-" + reason
+	if flvTable {
+		name += "-flv"
+	}
+	w := NewWorld(hevc, true)
+	path := w.S.Path()
+	media.Regist(w.S)
+	w.Publish(KSps, 2)
+	var successor *media.Stream
+	switch reason {
+	case "replaced":
+		sdp := SdpH264
+		if hevc {
+			sdp = SdpH265
+		}
+		successor = media.NewStream(path, sdp)
+		media.Regist(successor) // the old stream has no consumer: closed at once, status "replaced"
+	case "unregistered":
+		media.Unregist(w.S)
+	default:
+		w.S.Close()
+		media.Unregist(w.S)
+	}
+	defer func() {
+		if successor != nil {
+			media.Unregist(successor)
+		}
+	}()
+	if !Eventually(30*time.Second, func() bool { return w.S.VerifStatus() != 0 }) {
+		return Outcome{Name: name, Skipped: "the stream did not end"}
+	}
+	r := w.NewRec()
+	if flvTable {
+		r.Flv = true
+		r.CID = w.S.StartConsume(r, media.FLVPacket, "verif")
+	} else {
+		w.Join(r, true)
+	}
+	ok := Eventually(30*time.Second, func() bool { return r.CloseCalls() >= 1 && w.S.ConsumerCount() == 0 })
+	time.Sleep(2 * time.Millisecond)
+	if !ok {
+		return Outcome{Name: name, Fail: fmt.Sprintf("consumer attached to an ended stream (%s) is not released: Close calls %d, consumer count %d", reason, r.CloseCalls(), w.S.ConsumerCount()), Detail: w.Observe()}
+	}
+	if n := r.CloseCalls(); n != 1 {
+		return Outcome{Name: name, Fail: fmt.Sprintf("Consumer.Close called %d times", n), Detail: w.Observe()}
+	}
+	return Outcome{Name: name}
+}
+
 // ScAttachDuringCloseGate: the closer is parked right after publishing the closed status,
 // a consumer attaches, the closer continues its sweep.
 func ScAttachDuringClose(hevc bool) Outcome {
